@@ -142,31 +142,32 @@ def expected_line(d):
 
 # ---- printing -------------------------------------------------------------
 
-def plain_namer(fi, n, rng=None):
-    return str(n)
-
-
-def random_namer(rng):
-    def namer(fi, n):
+def random_namer(rng, record=None):
+    """Print a month / week day as its number or as its name in random letter case.  The choice made for
+    (field, member position, role) is written to record: None = number, else the lower-case mask."""
+    def namer(fi, n, k=0, role=0):
         names = MONTHS if fi == MON else DAYS if fi == DOW else None
         if names and 1 <= n <= len(names) and rng.random() < 0.5:
-            return "".join(c.lower() if rng.random() < 0.5 else c for c in names[n - 1])
+            mask = [rng.random() < 0.5 for _ in names[n - 1]]
+            if record is not None:
+                record[(fi, k, role)] = mask
+            return "".join(c.lower() if m else c for c, m in zip(names[n - 1], mask))
         return str(n)
     return namer
 
 
-def render_item(it, fi, namer):
+def render_item(it, fi, namer, pos=0):
     k = it[0]
     if k == "val":
-        return namer(fi, it[1])
+        return namer(fi, it[1], pos, 0)
     if k == "range":
-        return namer(fi, it[1]) + "-" + namer(fi, it[2])
+        return namer(fi, it[1], pos, 0) + "-" + namer(fi, it[2], pos, 1)
     if k == "stepfrom":
-        return namer(fi, it[1]) + "/" + str(it[2])
+        return namer(fi, it[1], pos, 0) + "/" + str(it[2])
     if k == "stepall":
         return "*/" + str(it[1])
     if k == "steprange":
-        return namer(fi, it[1]) + "-" + namer(fi, it[2]) + "/" + str(it[3])
+        return namer(fi, it[1], pos, 0) + "-" + namer(fi, it[2], pos, 1) + "/" + str(it[3])
     raise ValueError(k)
 
 
@@ -176,8 +177,8 @@ def render_fexpr(f, fi, namer):
     if f == ANY:
         return "?"
     if f[0] == "item":
-        return render_item(f[1], fi, namer)
-    return ",".join(render_item(it, fi, namer) for it in f[1])
+        return render_item(f[1], fi, namer, 0)
+    return ",".join(render_item(it, fi, namer, pos) for pos, it in enumerate(f[1]))
 
 
 def render_tokens(fs, namer):
@@ -195,7 +196,7 @@ def render_tokens(fs, namer):
 
 
 def render_simple(fs):
-    toks = render_tokens(fs, lambda fi, n: str(n))
+    toks = render_tokens(fs, lambda fi, n, k=0, role=0: str(n))
     return " ".join(toks)
 
 
@@ -203,26 +204,34 @@ RE_WS = " \t\n\f\r"
 TRIM_WS = " \t\n\v\f\r"
 
 
-def render_variant(fs, rng, macro=None):
-    """A random syntactic variant of a documented expression."""
+def render_variant(fs, rng, macro=None, record=None):
+    """A random syntactic variant of a documented expression; the choices made go to record (a dict)."""
+    names = {}
+    macro_name = omit_year = False
     if macro is not None and rng.random() < 0.5:
         toks = [macro]
+        macro_name = True
     else:
-        toks = render_tokens(fs, random_namer(rng))
+        toks = render_tokens(fs, random_namer(rng, names))
         if fs[YEAR] == ALL and rng.random() < 0.5:
             toks = toks[:6]
+            omit_year = True
     plain = rng.random() < 0.4
 
     def ws(alphabet, lo):
         if plain:
             return " " * lo
         return "".join(rng.choice(alphabet) for _ in range(rng.randint(lo, 3)))
-    s = ws(TRIM_WS, 0)
+    lead, trail, gaps = ws(TRIM_WS, 0), ws(TRIM_WS, 0), []
+    s = lead
     for i, t in enumerate(toks):
         if i:
-            s += ws(RE_WS, 1)
+            gaps.append(ws(RE_WS, 1))
+            s += gaps[-1]
         s += t
-    return s + ws(TRIM_WS, 0)
+    if record is not None:
+        record.update(lead=lead, trail=trail, gaps=gaps, names=names, omit_year=omit_year, macro_name=macro_name)
+    return s + trail
 
 
 # ---- random documented expressions -----------------------------------------
@@ -374,22 +383,124 @@ README_EXAMPLES = ["0 0 12 * * ?", "0 15 10 ? * *", "0 15 10 * * ?", "0 15 10 * 
                    "0 0 0 ? * friL", "0 0 0 ? * FRI#2", "+5 0 0 * * ?", "05 0 0 * * ?", "0 0 0 1,1 * ?"]
 
 
-def stream_grammar(cs, rng, n):
+def stream_grammar(cs, rng, n, sample=None, sample_size=0):
     valid = []
     for k in range(n):
+        rec = {}
+        name = None
         if rng.random() < 0.06:
             name = rng.choice(sorted(MACROS))
             fs = MACROS[name]
-            s = render_variant(fs, rng, macro=name)
+            s = render_variant(fs, rng, macro=name, record=rec)
         else:
             fs = gen_fields(rng)
-            s = render_variant(fs, rng)
+            s = render_variant(fs, rng, record=rec)
         d = denote(fs)
         if d is None:
             raise RuntimeError("generator produced an undocumented expression: %r" % (fs,))
-        cs.add(s, "grammar", expected_line(d))
+        line = expected_line(d)
+        cs.add(s, "grammar", line)
         valid.append(fs)
+        if sample is not None and len(sample) < sample_size and len(line) < 500:
+            sample.append((fs, name, rec, s, d))
     return valid
+
+
+# ---- the same sample evaluated inside Coq (vm_compute): ties the check's reading of the documentation to
+# ---- the Coq specification (render, denote, wf_doc) and takes extraction out of the loop for the sample
+
+COQ_WS = {" ": "WsSpace", "\t": "WsTab", "\n": "WsNewline", "\f": "WsFormFeed", "\r": "WsReturn"}
+COQ_MACRO = {"@yearly": "Yearly", "@monthly": "Monthly", "@weekly": "Weekly", "@daily": "Daily", "@hourly": "Hourly"}
+
+
+def cz(n):
+    return "(%d)" % n if n < 0 else str(n)
+
+
+def coq_item(it):
+    return "(%s %s)" % ({"val": "IVal", "range": "IRange", "stepfrom": "IStepFrom", "stepall": "IStepAll", "steprange": "IStepRange"}[it[0]],
+                        " ".join(cz(x) for x in it[1:]))
+
+
+def coq_fexpr(f):
+    if f == ALL:
+        return "FAll"
+    if f == ANY:
+        return "FAny"
+    if f[0] == "item":
+        return "(FItem %s)" % coq_item(f[1])
+    its = [coq_item(i) for i in f[1]]
+    return "(FList %s %s [%s])" % (its[0], its[1], "; ".join(its[2:]))
+
+
+def coq_expr(fs, macro):
+    if macro is not None:
+        return "(DMacro %s)" % COQ_MACRO[macro]
+    dom, dow = fs[DOM], fs[DOW]
+    cdom = {"f": lambda: "(DomF %s)" % coq_fexpr(dom[1]), "L": lambda: "DomLast", "Ln": lambda: "(DomLastMinus %s)" % cz(dom[1]),
+            "W": lambda: "(DomWeekday %s)" % cz(dom[1]), "LW": lambda: "DomLastWeekday"}[dom[0]]()
+    cdow = {"f": lambda: "(DowF %s)" % coq_fexpr(dow[1]), "L": lambda: "DowLast", "dL": lambda: "(DowLastOf %s)" % cz(dow[1]),
+            "hash": lambda: "(DowNth %s %s)" % (cz(dow[1]), cz(dow[2]))}[dow[0]]()
+    return "(DFields {| d_sec := %s; d_min := %s; d_hour := %s; d_dom := %s; d_mon := %s; d_dow := %s; d_year := %s |})" % (
+        coq_fexpr(fs[SEC]), coq_fexpr(fs[MIN]), coq_fexpr(fs[HOUR]), cdom, coq_fexpr(fs[MON]), cdow, coq_fexpr(fs[YEAR]))
+
+
+def coq_variant(rec):
+    edge = lambda c: "EdgeVTab" if c == "\v" else "(EdgeWs %s)" % COQ_WS[c]
+    gaps = "; ".join("(%s, [%s])" % (COQ_WS[g[0]], "; ".join(COQ_WS[c] for c in g[1:])) for g in rec["gaps"])
+    names = "; ".join("((%d%%nat, %d%%nat, %d%%nat), [%s])" % (fi, k, r, "; ".join("true" if b else "false" for b in mask))
+                      for (fi, k, r), mask in sorted(rec["names"].items()))
+    return "(mkv [%s] [%s] [%s] [%s] %s %s)" % ("; ".join(edge(c) for c in rec["lead"]), "; ".join(edge(c) for c in rec["trail"]),
+                                                 gaps, names, "true" if rec["omit_year"] else "false", "true" if rec["macro_name"] else "false")
+
+
+def coq_fields(vals, dom_n, dow_n):
+    l = lambda v: "[" + "; ".join(cz(x) for x in v) + "]"
+    return "(mkf %s %s %s %s %s %s %s %s %s)" % (l(vals[0]), l(vals[1]), l(vals[2]), l(vals[3]), cz(dom_n), l(vals[4]), l(vals[5]), cz(dow_n), l(vals[6]))
+
+
+def coq_spec_check(sample):
+    """-> (list of indexes on which Coq's render/denote/wf_doc/parse disagree with the check's, coqc output)"""
+    rows = []
+    for i, (fs, macro, rec, s, d) in enumerate(sample):
+        vals, dom_n, dow_n = d
+        tvals = list(vals)
+        if all(len(v) == 0 for v in vals):
+            tvals[0] = list(range(60))
+        rows.append("(%d%%nat, (%s, %s, [%s], %s, %s))" % (i, coq_variant(rec), coq_expr(fs, macro),
+                                                          "; ".join("%d%%nat" % ord(c) for c in s), coq_fields(vals, dom_n, dow_n),
+                                                          coq_fields(tvals, dom_n, dow_n)))
+    v = """From Coq Require Import ZArith List Bool Ascii String.
+Require Import QzBase.Fields QzParser.Gen.Params QzParser.ParserModel QzParser.ParserSpec.
+Import ListNotations.
+Open Scope Z_scope.
+Definition key_eqb (a : nat * nat * nat) (fi k r : nat) : bool :=
+  Nat.eqb (fst (fst a)) fi && Nat.eqb (snd (fst a)) k && Nat.eqb (snd a) r.
+Definition mkv lead trail gaps (names : list ((nat * nat * nat) * list bool)) omit mac : variant :=
+  {| v_lead := lead; v_trail := trail; v_gap := fun k => nth k gaps (WsSpace, []);
+     v_name := fun fi k r => match find (fun p => key_eqb (fst p) fi k r) names with Some p => Some (snd p) | None => None end;
+     v_omit_year := omit; v_macro_name := mac |}.
+Definition mkf a b c d dn e f fn g : fields :=
+  {| fl_sec := a; fl_min := b; fl_hour := c; fl_dom := d; fl_dom_n := dn; fl_mon := e; fl_dow := f; fl_dow_n := fn; fl_year := g |}.
+Definition ok (c : variant * doc_expr * list nat * fields * fields) : bool :=
+  let '(v, e, s, f, t) := c in
+  let str := map ascii_of_nat s in
+  bytes_eqb (render v e) str && wf_doc e && fields_eqb (denote e) f && fields_eqb (denote_trigger e) t &&
+  match parse str with Ok g => fields_eqb g f | ParseError => false end &&
+  match parse_trigger str with Ok g => fields_eqb g t | ParseError => false end.
+Definition cases : list (nat * (variant * doc_expr * list nat * fields * fields)) := [
+%s].
+Definition MISMATCH := Eval vm_compute in map fst (filter (fun c => negb (ok (snd c))) cases).
+Print MISMATCH.
+""" % ";\n".join(rows)
+    rc, out = vlib.coq_eval(PROJ, "c07_spec_sample", v)
+    if rc != 0:
+        return None, out
+    m = re.search(r"MISMATCH\s*=\s*(\[[^\]]*\])", out.replace("\n", " "))
+    if not m:
+        return None, out
+    body = m.group(1).strip("[]").strip()
+    return ([int(x.replace("%nat", "").strip()) for x in body.split(";") if x.strip()] if body else []), out
 
 
 ALPHABET = "0123456789*?,-/LW#@ \t+_.lwJANFEBMROYSUTDjanmon:\v"
@@ -403,7 +514,7 @@ def field_of_offset(s, pos):
 def stream_mutation(cs, rng, valid, n):
     per = max(1, n // max(1, len(valid)))
     for fs in valid:
-        namer = random_namer(rng) if rng.random() < 0.5 else (lambda fi, x: str(x))
+        namer = random_namer(rng) if rng.random() < 0.5 else (lambda fi, x, k=0, role=0: str(x))
         toks = render_tokens(fs, namer)
         if fs[YEAR] == ALL and rng.random() < 0.5:
             toks = toks[:6]
@@ -680,11 +791,12 @@ def build_cases(ctx):
     for s in README_EXAMPLES:
         cs.add(s, "readme")
     n_grammar = 12000 if quick else 120000
-    valid = stream_grammar(cs, rng, n_grammar)
+    sample = []
+    valid = stream_grammar(cs, rng, n_grammar, sample, 150 if quick else 1500)
     stream_mutation(cs, rng, valid[: (4000 if quick else 30000)], 20000 if quick else 240000)
     n_sweep = stream_sweep(cs, rng, ctx.tier)
     stream_bytes(cs, rng, 12000 if quick else 150000, valid)
-    return cs, n_sweep
+    return cs, n_sweep, sample
 
 
 def run(ctx):
@@ -695,10 +807,23 @@ def run(ctx):
     ml, out = vlib.ocaml_build(PROJ)
     if ml is None:
         raise RuntimeError("cannot build the extracted model: " + out[-3000:])
-    cs, n_sweep = build_cases(ctx)
+    cs, n_sweep, sample = build_cases(ctx)
     go_lines = run_lines(binp, cs.inp, "go")
     ml_lines = run_lines(ml, cs.inp, "ml")
     failures, mismatches, stats = compare(cs, go_lines, ml_lines, ml)
+    # shortest inputs first: the reported cases are the simplest ones
+    failures.sort(key=lambda f: len(f["case"]["hex"]))
+    mismatches.sort(key=lambda m: len(m.get("case", {}).get("hex", "")))
+    in_coq = None
+    if os.path.exists(os.path.join(vlib.coq_dir(PROJ), "theories", "ParserSpec.vo")):
+        bad, cout = coq_spec_check(sample)
+        if bad is None:
+            mismatches.append({"error": "in-Coq evaluation of the specification sample failed", "detail": cout[-1500:]})
+        else:
+            in_coq = {"cases": len(sample), "disagreements": len(bad)}
+            for i in bad:
+                mismatches.append({"case": case_obj(sample[i][3].encode("latin-1"), "grammar"),
+                                   "what": "Coq's render/denote/wf_doc/parse evaluated by vm_compute disagree with the check's documented-format oracle"})
 
     def search():
         """oracle-only run on the single-edit neighbourhood of the mismatching strings"""
@@ -747,6 +872,7 @@ def run(ctx):
         "exhaustive": False,
         "per_stream": per_stream,
         "boundary_sweep_cases": n_sweep,
+        "in_coq_spec_sample": in_coq,
         "accepted": stats["accepted"], "rejected": stats["rejected"], "nonascii_inputs": stats["nonascii"],
         "unicode_trimspace_divergences_explained": stats["unicode_trim_divergence"],
         "model_mismatches": len(mismatches),
